@@ -170,6 +170,26 @@ def _re_apply(kind):
     return f
 
 
+def _re_sub(interp, args, kwargs):
+    from pyvc.values import Opaque
+    pat, repl, s = args[0], args[1], interp.resolve(args[2])
+    if not isinstance(s, str):
+        raise Unsupported("re.sub on a symbolic string")
+    rx = pat.attrs["$pat"].rx if hasattr(pat, "attrs") else _re.compile(pat)
+    interp.trusted_used.add("re (python regular expressions on concrete strings)")
+    if isinstance(repl, str):
+        return rx.sub(repl, s)
+
+    def _call(m):
+        mo = Opaque("re.Match", attrs={"$m": m}, methods={"group": lambda interp2, *a: m.group(*a)})
+        out = interp.call(repl, [mo], {})
+        if not isinstance(out, str):
+            raise PyExc("TypeError", "expected str instance from the replacement function")
+        return out
+
+    return rx.sub(_call, s)
+
+
 class DDict(dict):
     """collections.defaultdict with an interpreter-level factory."""
     factory = None
@@ -182,7 +202,7 @@ def _defaultdict(interp, args, kwargs):
 
 
 EXTERNALS = {"Bio.Seq.Seq": bio_seq, "re.compile": _re_compile, "re.match": _re_apply("match"),
-             "re.search": _re_apply("search"), "re.fullmatch": _re_apply("fullmatch"),
+             "re.search": _re_apply("search"), "re.sub": _re_sub, "re.fullmatch": _re_apply("fullmatch"),
              "collections.defaultdict": _defaultdict}
 EXTERNAL_CONSTS = {"string.punctuation": _string.punctuation, "re.IGNORECASE": int(_re.IGNORECASE),
                    "re.I": int(_re.IGNORECASE)}
